@@ -8,10 +8,10 @@ V = os.path.dirname(os.path.dirname(os.path.abspath(__file__)))
 CLAIMED = {
  "C01": ("differential property testing against a prefix-popcount oracle over generated bit vectors x a menu of ~75 rank/select stacks",
          "Generated-input search over bit-vector descriptions (length classes around 64/512/2048-bit boundaries, densities 0.001..0.99, saturated/empty blocks, sparse gap lists, construction routes that leave stale bits: pop, shrinking resize, dirty raw parts) and a menu of rank-capable stacks (Rank9, the five RankSmall, boxed, under SelectAdapt/Const, Select9, SelectSmall, zero selectors, map re-wrappings); rank/rank_zero compared with prefix popcounts at every position up to len+2 (or boundary/sampled positions) and far beyond len; num_ones/count_ones/len/Index checked. Exploration: absence of violations only on what was generated.",
-         "Trusts the harness oracle (prefix popcounts of the logical bits) and decoders. Vectors above 2^32, 2^33 and 2^34 bits (dense, sparse, all ones, three upper blocks) are enumerated cases of both tiers."),
+         "Trusts the harness oracle (prefix popcounts of the logical bits) and decoders. Vectors above 2^32, 2^33 and 2^34 bits (dense, sparse, all ones, three upper blocks, upper blocks that are empty except for their last counter block) are enumerated cases of both tiers."),
  "C02": ("differential property testing against the positions of ones/zeros over generated bit vectors x selection structures x parameters",
          "Generated-input search over bit vectors (including prescribed gap lists around 2^16, ragged tails, stale bits) x selection stacks (Select9, SelectAdapt new/with_span/with_inv, 12 const (K,M) pairs, SelectSmall over each RankSmall, the zero twins, nestings) x generated parameters; select/select_zero compared with the oracle for every rank (sampled above 4096) and None beyond the count. Exploration level.",
-         "Trusts the oracle (positions of ones / binary search on prefix counts for zeros). 64-bit spans, mixed 16/32/64-bit span classes and irregular dense vectors with long second/third upper blocks are enumerated cases above 2^32 bits in both tiers."),
+         "Trusts the oracle (positions of ones / binary search on prefix counts for zeros). 64-bit spans, mixed 16/32/64-bit span classes irregular dense vectors with long second/third upper blocks and inventory spans of exactly 2^32 - 1, 2^32, 2^32 + 1 bits are enumerated cases above 2^32 bits in both tiers; blocks_per_inv ranges over {0, 1, 2, 3, 8, 16, 64}."),
  "C03": ("round-trip property testing: generated monotone sequences x builders x 9 selection back-ends, illegal pushes must be rejected",
          "Generated-input search over monotone sequences (duplicate runs crossing words, powers of two, huge gaps, u up to usize::MAX, (n,u) near the power-of-two split) built by push / extend / From<slice> / concurrent set in random order, then mapped onto 9 selection back-ends; len, get, iter, iter_from/into_iter_from at all starts with exact length hints compared with the input; out-of-order, too large and supernumerary pushes must panic and leave the builder usable; plus enumerated long skewed sequences (70000..1.7 million values) whose selector inventory entries span exactly 2^k-1, 2^k, 2^k+1 bits; iterators are also driven through nth/skip/step_by/count/last scripts against the model iterator. Exploration level.",
          "Trusts the input vector as oracle. Random sequences are bounded (<= 10^5 elements in the thorough tier); the enumerated skewed sequences reach 1.7 million."),
@@ -19,7 +19,7 @@ CLAIMED = {
          "Generated-input search over sequences as in C03 and, per sequence, ~100-250 queries (elements, neighbours, midpoints, bucket edges, u-1, u, u+1, 2u, 2^63, usize::MAX, random) on 5 select+select_zero back-ends; index_of/contains/succ/succ_strict/pred/pred_strict compared with partition_point on the sorted input, accepting any index that holds the returned value; every query also runs through the &T/&&T forwarding impls and on the enumerated long skewed sequences of C03. Exploration level.",
          "Trusts the oracle; with duplicates any index holding the value is accepted, as the property states."),
  "C05": ("model-based property testing: generated operation histories per word type and bit width against a Vec of values, full-state comparison after every op",
-         "Generated-input search: for each of the six word types, histories of <=60 operations (construction routes incl. macros and from_slice, push/pop/set/get/resize/clear/extend, positioned/unchecked/reverse iteration, equality, from_slice into every word type, boxed and atomic conversions with single-threaded atomic scripts) at widths 0..=BITS with all-ones/top-bit values; every observation is compared with a Vec model after every step; non-fitting values and out-of-range indices must panic and leave the contents unchanged; histories include garbage written through as_mut_slice() beyond the contents, extends from iterators with exact/(0,Some(n))/(0,Some(usize::MAX))/(0,None) size hints, extends left by a panic, equality against borrowed views of the vector's own words, and Iterator-protocol scripts (nth/skip/step_by/...). Exploration level.",
+         "Generated-input search: for each of the six word types, histories of <=60 operations (construction routes incl. macros and from_slice, push/pop/set/get/resize/clear/extend, positioned/unchecked/reverse iteration, equality, from_slice into every word type, boxed and atomic conversions with single-threaded atomic scripts) at widths 0..=BITS with all-ones/top-bit values; every observation is compared with a Vec model after every step; non-fitting values and out-of-range indices must panic and leave the contents unchanged; histories include garbage written through as_mut_slice() beyond the contents, extends from iterators with exact/(0,Some(n))/(0,Some(usize::MAX))/(0,None) size hints, extends left by a panic, equality against borrowed views of the vector's own words, Iterator-protocol scripts (nth/skip/step_by/...), and every memory ordering that is legal for the atomic operation. Exploration level.",
          "Trusts the Vec model and the decoders. set()/set_atomic() with width 0 is never generated (documented as undefined)."),
  "C06": ("model-based property testing: generated operation histories against a Vec<bool> model, full-state comparison after every op, byte-level shrinking",
          "Generated-input search: hundreds of thousands (quick) to millions (thorough) of operation histories over all construction routes, the growable/boxed/atomic forms and their conversions, with out-of-range accesses that must panic; every observation is compared with a Vec<bool> model after every step; the same additions as C05 (scribbled storage, size-hint variety, alias views, Iterator-protocol scripts) plus enumerated vectors above 2^32 bits. Exploration, not proof: it shows the absence of violations only on the histories generated.",
@@ -29,7 +29,7 @@ CLAIMED = {
 
 CLAIMED.update({
  "C07": ("property testing of builder configurations: generated (type-table row, key set, values, configuration[, second configuration]) plus enumeration of every n<=130 on every row; oracle = the input pairs; deterministic attempt bound instead of a clock",
-         "Generated-input search over a 20-row table of concrete builder types (5 key types x 5 value words x 2 backends x 64/128-bit signatures x the 5 shard/edge logics), every n in 0..=130 per row, thousands of random configurations (offline, low_mem, threads, eps, buckets, seed, expected_num_keys absent/exact/inexact/in another sharding regime, check_dups) with n<=3000, sizes around the 100k/200k/400k/800k/1.7M regime switches, and an enumerated segment of builds in the pure peeling regimes (800001 keys on the sharded logics, 100001.. on FuseLge3NoShards; thorough up to 2.05*10^7 keys) with low- and high-memory peelers; every supplied pair is verified through get (and get_unaligned where admissible), and a second configuration must give a function that also verifies. Exploration level.",
+         "Generated-input search over a 20-row table of concrete builder types (5 key types x 5 value words x 2 backends x 64/128-bit signatures x the 5 shard/edge logics), every n in 0..=130 per row, thousands of random configurations (offline, low_mem, threads, eps, buckets, seed, expected_num_keys absent/exact/inexact/in another sharding regime, check_dups) with n<=3000, sizes around the 100k/200k/400k/800k/1.7M regime switches, and an enumerated segment of builds in the pure peeling regimes (800001 keys on the sharded logics, 100001.. on FuseLge3NoShards; thorough up to 2.05*10^7 keys) with low- and high-memory peelers (including 400000/799999/800000 keys, where unbalanced first attempts are frequent), and one build per key type that implements ToSig (22 types); every supplied pair is verified through get (and get_unaligned where admissible), and a second configuration must give a function that also verifies. Exploration level.",
          "Thread schedules of the parallel solver are not controlled (varied only through the thread count); termination is decided by a deterministic bound on source rewinds (generous where attempts are cheap), a wall-clock watchdog only yields 'inconclusive'; a worker whose threads are all blocked without consuming CPU for 12 s is a violation of class deadlock (state criterion, see DESIGN.md section 9)."),
  "C08": ("property testing of filter builds with a statistical oracle for the false-positive rate (7-sigma binomial band, two-sided when the expectation is >= 50)",
          "Generated-input search over the same type table and configurations as C07 with hash widths b in {1,2,3,5,7,8,9,12,16,31,32,33,63,64}: every inserted key must be found by contains and Index, len/hash_bits checked, contains_unaligned where admissible, including the peeling-regimes segment of C07; non-members from a structurally disjoint family are probed (2*10^4 to 2*10^5 per filter) and the positive count must lie within N 2^-b +- (7 sigma + 4). Exploration level; the rate check decides 'grossly wrong vs plausible'.",
@@ -38,7 +38,7 @@ CLAIMED.update({
          "Generated-input search over block sizes, prefix-family string lists over six alphabets (multi-byte UTF-8 with characters sharing 1, 2 or 3 bytes, lengths around 127..130; enumerated rear lengths in the 3-, 4- and (thorough) 5-byte variable-byte regimes, up to 270 MB strings), sorted/reversed/duplicated/unsorted order, push or extend; len, get, get_in_place, iter/lend/into_lender, iter_from/lend_from/into_iter_from at every start with exact hints, index_of/contains for present, absent, prefix, extension and in-between probes. Exploration level.",
          "Trusts the Vec<String> oracle; strings never contain NUL (documented precondition)."),
  "C10": ("differential property testing of bulk operations against element-wise loops, with a completely enumerated sub-domain for copy",
-         "Generated-input search over six word types: copy vs element loop (plus the complete enumeration of u8/u16, all widths, 24-element vectors, every (from,to,len)), apply_in_place with a recording closure on fresh and spare-word vectors, reset variants, BitVec fill/flip/reset/count and parallel and atomic twins, try_chunks_mut views (read and write), get_unaligned vs get, the blanket impls for Vec<W>/Box<[W]>, the parallel variants on 12.8-64 Mbit vectors in rayon pools of 1/2/3/default threads and all-ones vectors of 2^33..2^34+2^32 bits. Exploration level with one exhaustively enumerated finite sub-domain.",
+         "Generated-input search over six word types: copy vs element loop (plus the complete enumeration of u8/u16, all widths, 24-element vectors, every (from,to,len)), apply_in_place with a recording closure on fresh and spare-word vectors, reset variants, BitVec fill/flip/reset/count and parallel and atomic twins, try_chunks_mut views (read and write), get_unaligned vs get, the blanket impls for Vec<W>/Box<[W]>, the trait's default copy/apply_in_place/set run by a harness-defined implementor, the parallel variants on 12.8-64 Mbit vectors in rayon pools of 1/2/3/default threads and all-ones vectors of 2^33..2^34+2^32 bits. Exploration level with one exhaustively enumerated finite sub-domain.",
          "Width 0 is excluded for apply_in_place (defined through set(), undefined at width 0) and try_chunks_mut at width 0 is an open known finding."),
  "C11": ("generated-input search over sizes with mem_size as the observation: built structures plus a formula sweep through the public ShardEdge API at every n below 300000",
          "Rank9/RankSmall/Select9 overheads, Elias-Fano bits per element over (n,u) classes, exact word counts of plain vectors, built functions and filters on the 20-row type table, and num_vertices x num_shards of all six logics for every n < 300000 (thorough 2000000) and log-uniform n up to 10^12 at both extreme admissible maximum shards, all against the documented bounds with an additive slack of a few words/three segments per shard. Exploration level (the per-n sweep is complete below its limit).",
@@ -65,10 +65,10 @@ CLAIMED.update({
          "Generated multisets (skewed high bits, duplicates) x (bucket bits, max shard bits, shard bits) x two signature and four value types x online/offline; number of shards, shard_sizes, home shard of every pair and multiset equality for two borrowed iterations and the consuming one; enumerated stores with single buckets of 2^15..2^18 pairs and one bucket file above 2 GiB. Exploration level.",
          "Offline stores are limited to 2^4 buckets per case; the 2 GiB case needs about 2.2 GB of temporary disk and 3 GB of memory."),
  "C19": ("differential property testing of both GF(2) solvers against an independent dense Gauss-Jordan oracle, with an exhaustively enumerated small sub-domain",
-         "Generated systems over five word types in seven shapes (planted, contradictory, repeated, rank-deficient, 3-uniform, fuse-like, arbitrary) plus all 41371 systems with 3 variables, <=4 equations and 1-bit constants, enumerated systems with rows of 255..131072 variables and with 65537..68536 equations (variables of weight ~2^16); Ok iff solvable, solutions verified by the harness' evaluator and by check(). Exploration level with one exhaustive sub-domain.",
+         "Generated systems over five word types in seven shapes (planted, contradictory, repeated, rank-deficient, 3-uniform, fuse-like, arbitrary) plus all 41371 systems with 3 variables, <=4 equations and 1-bit constants, enumerated systems with rows of 255..131072 variables and with 65537..68536 equations (variables of weight ~2^16); Ok iff solvable, solutions verified by the harness' evaluator and by check(); three further solver calls on one object must still satisfy the original equations. Exploration level with one exhaustive sub-domain.",
          "Trusts the harness' Gauss-Jordan oracle; the many-equation systems are solvable or contradictory by construction and run through the lazy solver only (the plain elimination is quadratic)."),
  "C20": ("history-based property testing of rewindable lenders: generated inputs and Next/Rewind histories against the harness' own line splitter",
-         "Ten lender kinds (plain/zstd/gzip line lenders over cursors and files, small-buffer readers, FromIntoIterator) with optional take(m), inputs with CR/LF/CRLF corner cases, a leading BOM or '#', lines longer than the reader's buffer, zstd sources of 1-3 concatenated frames and gzip sources of 1-3 members, histories with up to 7 rewinds; every item of every pass compared. Exploration level. One open known finding (Take) is excluded by construction and re-checked on every run.",
+         "Ten lender kinds (plain/zstd/gzip line lenders over cursors and files, small-buffer readers, FromIntoIterator) with optional take(m), inputs with CR/LF/CRLF corner cases, a leading BOM or '#', lines longer than the reader's buffer, zstd sources of 1-3 concatenated frames, zstd frames declaring 2^28..2^30-byte windows, gzip sources of 1-3 members, lines that are not valid UTF-8, histories with up to 7 rewinds; every item of every pass compared. Exploration level. One open known finding (Take) is excluded by construction and re-checked on every run.",
          "Compression in the harness uses the zstd/flate2 crates the library itself depends on."),
 })
 
